@@ -9,7 +9,7 @@ hooks = [l.split()[0] for l in HOOK_COMMITS if 'verif hook' in l]
 CLAIMED = {
  'C01': dict(
    text="Kernel obligations only, each proved for all inputs of the function it sits on: (1) the insertion-point codec - CachedPointDataExtractor.Extract inverts the `path#id` / `path:index` encoding produced by the executor (string theory; the id is everything after the first '#'); (2) the stitching kernels FindInsertionPoints (row-shape invariants, all indices in range), ExtractValueModifyingSource, mergeMaps / mergeSlices / getLeftEntityPosition and DepthExecutorManager.merge are panic-free for arbitrary decoded JSON and keep the stated shapes; (3) planner.extractSelectionSet folds a field owned by another service into an existing child step only when that step has the same URL and the comparison of insertion points that allowed it returned true (obligation on the folding call, over a ghost record of the comparison call); (4) the name predicates of package common. NOT decided: equality of the stitched `data` with what a single server would return (needs GraphQL execution semantics as a specification), the planner's split as a whole, formatting, scrubbing (see C13 finding B19).",
-   note="Assumed: strconv.ParseInt / strings.SplitN library models; decoded JSON values are well-formed (jsonval); extractSelectionSet's callees and its own recursive calls are treated as arbitrary (modifies-assumed anything), so only what is stated about the folding decision is proved; the routing table is well-formed (proved in C04) and schema maps hold non-nil definitions.",
+   note="Assumed: strconv.ParseInt / strings.SplitN library models; decoded JSON values are well-formed (jsonval); extractSelectionSet's callees without contract are abstracted by their inferred write sets, so only what is stated about the folding decision is proved; the routing table is well-formed (proved in C04) and schema maps hold non-nil definitions.",
    ref="DESIGN.md §0.3 C01", technique="contract-based deductive verification (codec postconditions in the theory of strings, loop invariants over row slices, call-site obligation with ghost call record, z3+cvc5)"),
  'C03': dict(
    text="Deductive proof of the union shape of the pairwise merge where it is a per-call property: mergeTypes (no error) yields exactly keys(a) ∪ non-builtin keys(b), all definitions non-nil; mergeRootObjects keeps every root field of the schema being merged in (prefix, by identity) and every non-builtin root field of the accumulated side (by name) - which is where the order-dependent loss of Query.node was found and fixed; the routing side is C04. Fields, arguments, enum values, union members and directives of non-root types, and the final FormatSchema + LoadSchema round trip, are not under contract.",
